@@ -29,6 +29,8 @@ TOKENS = [
     "k=v", "k=", "=v", "k", "k=v;", "; ", ", ", " = ", '="', '";', "a=b; c=d", "name=value", "a=1; a=2", "$Version=1", '"a\\073b"', '"\\', "\\0", "\\777", "\\073",
     "multipart/form-data", "boundary=", "boundary", "charset=", "charset=utf-8", "charset=bogus", "application/x-www-form-urlencoded", "application/json",
     "text/plain; charset=", "\t",
+    # language negotiation: regional variants accepted / refused next to their primary tag
+    "en-GB", "en;q=0.8", "en-US;q=0", "de-AT;q=0", "de;q=0", "fi", "fil-PH",
 ]
 
 
